@@ -49,5 +49,7 @@ SEEDED = [
     ("C03-10", "C03-SEP"),
     ("C03-12", "C03-REF"),
     ("C03-13", "C03-FILL"),
+    ("C03-14", "C03-SPINE"),
+    ("C03-15", "C03-FILL"),
 ]
 MUTANTS = list(MUTANTS) + [_P("seed-" + sid, _os.path.join(_SEEDS, sid, "patch.diff"), rule) for sid, rule in SEEDED if _os.path.exists(_os.path.join(_SEEDS, sid, "patch.diff"))]
